@@ -19,7 +19,9 @@ TEXT = {
             "by TLC on the bounded Adsr.tla (ghost prog); on the real code every tick's observed accumulator step is "
             "checked against the exact ideal step 2^24/(T*fs) (u128 rational arithmetic) with the stated rounding "
             "bounds, and leaving/overstaying a phase against the same bounds, over the (fs, T) plane incl. sub-sample "
-            "phases", "5"),
+            "phases; every transition of the bounded model is replayed on the real Adsr (128 Hz, exact increments); the "
+            "roll-over law of the 24-bit accumulator is discharged for all increments by Apalache as an inductive "
+            "invariant", "5 and 12.6"),
     "C03": ("the per-tick change is bounded by slope * span * step (+ sustain change) in TLC on the bounded model and "
             "at every logged tick of the real code (slowest envelope around every table cell border, re-triggers at "
             "random positions)", "5"),
